@@ -564,6 +564,8 @@ impl IterState {
             final(self).html == old(self).html, final(self).check_duplicates == old(self).check_duplicates,
             // the type invariant is kept, so the next call is covered again (induction over the calls)
             state_ok(final(self).state, slice@.len()), keys_in(final(self).keys@, slice@.len()),
+            // both ranges of a returned item lie inside the content (the caller slices with them)
+            r matches Some(Ok(a)) ==> attr_in(a, slice@.len()),
     {
         proof { axiom_slice_len(slice); }
         let mut iter = match self.recover(slice) {
@@ -744,6 +746,148 @@ impl<'a> BytesStart<'a> {
  {
         proof { axiom_cow_bytes(&self.buf); }
         Attributes::wrap(&self.buf, self.name_len, true)
+    }
+//@end
+}
+
+impl<T> Attr<T> {
+//@extract attributes::Attr::map | src/events/attributes.rs :: impl<T> Attr<T> :: fn map | serves=C11
+//@rewrite mut f: F ==> f: F
+//@rewrite F: FnMut(T) -> U ==> F: Fn(T) -> U
+ fn map<U, F>(self, f: F) -> (r: Attr<U>)
+    where
+        F: Fn(T) -> U,
+        requires match self {
+            Attr::DoubleQ(k, v) => f.requires((k,)) && f.requires((v,)),
+            Attr::SingleQ(k, v) => f.requires((k,)) && f.requires((v,)),
+            Attr::Unquoted(k, v) => f.requires((k,)) && f.requires((v,)),
+            Attr::Empty(k) => f.requires((k,)),
+        }
+        // the kind is kept, key and value are mapped
+        ensures match (self, r) {
+            (Attr::DoubleQ(k, v), Attr::DoubleQ(k2, v2)) => f.ensures((k,), k2) && f.ensures((v,), v2),
+            (Attr::SingleQ(k, v), Attr::SingleQ(k2, v2)) => f.ensures((k,), k2) && f.ensures((v,), v2),
+            (Attr::Unquoted(k, v), Attr::Unquoted(k2, v2)) => f.ensures((k,), k2) && f.ensures((v,), v2),
+            (Attr::Empty(k), Attr::Empty(k2)) => f.ensures((k,), k2),
+            _ => false,
+        }
+    {
+        match self {
+            Attr::DoubleQ(key, value) => Attr::DoubleQ(f(key), f(value)),
+            Attr::SingleQ(key, value) => Attr::SingleQ(f(key), f(value)),
+            Attr::Empty(key) => Attr::Empty(f(key)),
+            Attr::Unquoted(key, value) => Attr::Unquoted(f(key), f(value)),
+        }
+    }
+//@end
+}
+impl<'a> Attr<&'a [u8]> {
+//@extract attributes::Attr::key | src/events/attributes.rs :: impl<'a> Attr<&'a [u8]> :: fn key | serves=C11
+ fn key(&self) -> (r: QName<'a>)
+        ensures r.0 == attr_key(*self)
+ {
+        QName(match self {
+            Attr::DoubleQ(key, _) => key,
+            Attr::SingleQ(key, _) => key,
+            Attr::Empty(key) => key,
+            Attr::Unquoted(key, _) => key,
+        })
+    }
+//@end
+//@extract attributes::Attr::value | src/events/attributes.rs :: impl<'a> Attr<&'a [u8]> :: fn value | serves=C11
+ fn value(&self) -> (r: &'a [u8])
+        // an attribute without value has the empty value (HTML)
+        ensures r@ == attr_value(*self)
+ {
+        match self {
+            Attr::DoubleQ(_, value) => value,
+            Attr::SingleQ(_, value) => value,
+            Attr::Empty(_) => &[],
+            Attr::Unquoted(_, value) => value,
+        }
+    }
+//@end
+}
+//@extract attributes::Attribute#attrs | src/events/attributes.rs :: struct Attribute | serves=C11
+ pub struct Attribute<'a> {
+    /// The key to uniquely define the attribute.
+    ///
+    /// If [`Attributes::with_checks`] is turned off, the key might not be unique.
+    pub key: QName<'a>,
+    /// The raw value of the attribute.
+    pub value: Cow<'a, [u8]>,
+}
+//@end
+impl<'a> vstd::std_specs::convert::FromSpecImpl<Attr<&'a [u8]>> for Attribute<'a> {
+    open spec fn obeys_from_spec() -> bool { false }
+    open spec fn from_spec(e: Attr<&'a [u8]>) -> Self { arbitrary() }
+}
+/// key / value of a located attribute
+pub open spec fn attr_key<'a>(a: Attr<&'a [u8]>) -> &'a [u8] {
+    match a { Attr::DoubleQ(k, _) => k, Attr::SingleQ(k, _) => k, Attr::Unquoted(k, _) => k, Attr::Empty(k) => k }
+}
+pub open spec fn attr_value<'a>(a: Attr<&'a [u8]>) -> Seq<u8> {
+    match a { Attr::DoubleQ(_, v) => v@, Attr::SingleQ(_, v) => v@, Attr::Unquoted(_, v) => v@, Attr::Empty(_) => Seq::<u8>::empty() }
+}
+/// both ranges of an item lie inside the content
+pub open spec fn attr_in(a: Attr<Range<usize>>, n: nat) -> bool {
+    match a {
+        Attr::DoubleQ(k, v) => k.start <= k.end <= n && v.start <= v.end <= n,
+        Attr::SingleQ(k, v) => k.start <= k.end <= n && v.start <= v.end <= n,
+        Attr::Unquoted(k, v) => k.start <= k.end <= n && v.start <= v.end <= n,
+        Attr::Empty(k) => k.start <= k.end <= n,
+    }
+}
+/// the public item for a located attribute: the bytes of its ranges
+pub open spec fn item_of<'a>(s: Seq<u8>, a: Attr<Range<usize>>, at: Attribute<'a>) -> bool {
+    match a {
+        Attr::DoubleQ(k, v) => at.key.0@ == key_text(s, k) && at.value@ == key_text(s, v),
+        Attr::SingleQ(k, v) => at.key.0@ == key_text(s, k) && at.value@ == key_text(s, v),
+        Attr::Unquoted(k, v) => at.key.0@ == key_text(s, k) && at.value@ == key_text(s, v),
+        Attr::Empty(k) => at.key.0@ == key_text(s, k) && at.value@.len() == 0,
+    }
+}
+impl<'a> Attributes<'a> {
+    /// type invariant of the public iterator
+    pub closed spec fn inv(&self) -> bool { state_ok(self.state.state, self.bytes@.len()) && keys_in(self.state.keys@, self.bytes@.len()) }
+}
+impl<'a> From<Attr<&'a [u8]>> for Attribute<'a> {
+//@extract attributes::Attribute::from_attr | src/events/attributes.rs :: impl<'a> From<Attr<&'a [u8]>> for Attribute<'a> :: fn from | serves=C11
+    fn from(attr: Attr<&'a [u8]>) -> (r: Self)
+        ensures r.key.0 == attr_key(attr), r.value@ == attr_value(attr)
+    {
+        Self {
+            key: attr.key(),
+            value: Cow::Borrowed(attr.value()),
+        }
+    }
+//@end
+}
+impl<'a> Attributes<'a> {
+//@extract attributes::Attributes::next | src/events/attributes.rs :: impl<'a> Iterator for Attributes<'a> :: fn next | serves=C09,C11
+//@rewrite Option<Self::Item> ==> Option<core::result::Result<Attribute<'a>, AttrError>>
+    fn next(&mut self) -> (r: Option<core::result::Result<Attribute<'a>, AttrError>>)
+        requires old(self).inv()
+        ensures
+            final(self).inv(), final(self).bytes == old(self).bytes,
+            final(self).state.html == old(self).state.html, final(self).state.check_duplicates == old(self).state.check_duplicates,
+            // C11 / C09: the public item is the located attribute of one documented step, key and value being exactly
+            // the bytes of its ranges; errors are passed on unchanged
+            ({ let st = next_spec(old(self).state.state, old(self).state.html, old(self).state.check_duplicates, old(self).state.keys@, old(self).bytes@);
+               final(self).state.state == st.state && final(self).state.keys@ == st.keys && match st.out {
+                   None => r is None,
+                   Some(Err(e)) => r == Some::<core::result::Result<Attribute<'a>, AttrError>>(Err(e)),
+                   Some(Ok(a)) => r matches Some(Ok(at)) && item_of(old(self).bytes@, a, at),
+               } }),
+    {
+        match self.state.next(self.bytes) {
+            None => None,
+            Some(Ok(a)) => Some(Ok(a.map(|range: Range<usize>| -> (x: &'a [u8])
+                    requires range.start <= range.end <= self.bytes@.len()
+                    ensures x@ == key_text(self.bytes@, range)
+                { &self.bytes[range] }).into())),
+            Some(Err(e)) => Some(Err(e)),
+        }
     }
 //@end
 }
